@@ -614,17 +614,40 @@ func R31() Rule {
 				c.Fn(core.FuncName(fn))
 				ok := true
 				n := 0
+				// every returned value is one of the cross-checked implementations — directly, or as
+				// the result of an in-package helper all of whose returns are
+				var judge func(v ssa.Value, depth int)
+				judge = func(v ssa.Value, depth int) {
+					v = core.Strip(v)
+					if mi, isMI := v.(*ssa.MakeInterface); isMI {
+						if !isImpl(mi.X.Type()) {
+							ok = false
+						}
+						return
+					}
+					if isImpl(v.Type()) {
+						return
+					}
+					if call, isCall := core.Resolve(v).(*ssa.Call); isCall && depth < 3 {
+						if callee := call.Call.StaticCallee(); callee != nil && callee.Blocks != nil && core.PkgPathOf(callee) == core.PkgBttest {
+							k := 0
+							for _, r := range returnsIn(callee) {
+								for _, rv := range returnValues(r.Results[0]) {
+									k++
+									judge(rv, depth+1)
+								}
+							}
+							if k > 0 {
+								return
+							}
+						}
+					}
+					ok = false
+				}
 				for _, r := range returnsIn(fn) {
 					for _, v := range returnValues(r.Results[0]) {
 						n++
-						mi, isMI := core.Strip(v).(*ssa.MakeInterface)
-						_ = mi
-						if !isMI && !isImpl(core.Strip(v).Type()) {
-							ok = false
-						}
-						if isMI && !isImpl(mi.X.Type()) {
-							ok = false
-						}
+						judge(v, 0)
 					}
 				}
 				if n == 0 {
